@@ -307,3 +307,9 @@ def finish(prop, tier, seed, level, result, rule, distinct_keys, t0,
         prop, {0: 'HELD', 1: 'VIOLATED', 2: 'INCONCLUSIVE'}[code], tier, seed, evaluations, len(dn),
         time.monotonic() - t0, json.dumps(coverage['counters'])[:1500]))
     return code
+
+
+def journal_kw(journal):
+    """Constructor arguments selecting a journal mode.  'wal' is the library's default and is NOT passed, so that
+    the default itself stays under test."""
+    return {} if journal == 'wal' else {'sqlite_journal_mode': journal}
